@@ -9,6 +9,7 @@ import (
 
 	"verif/internal/mon"
 
+	"github.com/datastax/go-cassandra-native-protocol/datacodec"
 	"github.com/datastax/go-cassandra-native-protocol/primitive"
 )
 
@@ -316,6 +317,11 @@ func (h *harness) runCase(k *kase, index int) {
 		c.Inconclusive("no-codec:" + t.str)
 		return
 	}
+	_, perr := datacodec.PreferredGoType(t.dataType())
+	untypedOK := perr == nil
+	if !untypedOK {
+		lc.count("c_untyped_skipped_no_preferred_type", 1)
+	}
 	next := r.Intn(12)
 	full := mkVal(t, k.widths, 0, &next)
 	if next > 120 {
@@ -460,7 +466,7 @@ func (h *harness) runCase(k *kase, index int) {
 			}
 			var ps probset
 			probs := &ps
-			cmpValue(t, full, d.Elem(), false, probs)
+			cmpValue(t, full, d.Elem(), false, false, probs)
 			if len(*probs) > 0 {
 				lc.count("baseline_roundtrip_differs", 1) // C11's business
 				continue
@@ -609,6 +615,64 @@ func (h *harness) runCase(k *kase, index int) {
 				continue
 			}
 			for _, b := range encodings {
+				// untyped destination: the library picks every slot type (PreferredGoType); the null must
+				// still be a nil there and must be a -1 length again when the untyped result is re-encoded
+				if untypedOK {
+					d := reflect.New(tIface)
+					wasNull, err, pan := h.dec(codec, b, d.Interface(), ver)
+					lc.evals++
+					lc.count("c_untyped_decodes_with_null", 1)
+					lc.sig("c-untyped", t.str, fmt.Sprint(p.depth))
+					what := ""
+					var re []byte
+					switch {
+					case pan != "":
+						what = "panic"
+					case err != nil:
+						what = "decode-error"
+					case wasNull:
+						what = "wasNull-true"
+					default:
+						var ps probset
+						cmpValue(t, p.v, d.Elem(), false, true, &ps)
+						what = classify(ps, "")
+					}
+					if what == "" {
+						var rerr error
+						var rpan string
+						re, rerr, rpan = h.enc(codec, d.Elem().Interface(), ver)
+						lc.evals++
+						lc.count("c_untyped_reencodes", 1)
+						switch {
+						case rpan != "":
+							what, pan = "reencode-panic", rpan
+						case rerr != nil:
+							what, err = "reencode-error", rerr
+						case re == nil:
+							what = "reencode-as-null"
+						default:
+							if w, werr := walkWire(t, re, false); werr != nil {
+								what, err = "reencode-wire-unreadable", werr
+							} else {
+								var ps probset
+								cmpWire(t, p.v, w, &ps)
+								if cl := classify(ps, "wire-"); cl != "" {
+									what = "reencode-" + cl
+								}
+							}
+						}
+					}
+					if what != "" {
+						dd := mkDetail(ver, p)
+						dd.Dst, dd.Bytes, dd.Err = "*interface{}", hex.EncodeToString(b), errStr(err)+pan
+						dd.Got = safeFmt(d.Elem())
+						if re != nil {
+							dd.Input = "re-encoded: " + hex.EncodeToString(re)
+						}
+						dd.Want = "nil at the null position(s) " + p.name + " of the untyped result, and a -1 length there when it is re-encoded"
+						viol("c", "untyped", what, dd)
+					}
+				}
 				first := true
 				for i, s := range dstSpecs {
 					if !dstOK[i] {
@@ -639,7 +703,7 @@ func (h *harness) runCase(k *kase, index int) {
 						default:
 							var ps probset
 							probs := &ps
-							cmpValue(t, p.v, d.Elem(), false, probs)
+							cmpValue(t, p.v, d.Elem(), false, dstSpecs[i].top == "iface", probs)
 							what = classify(*probs, "")
 						}
 						if what != "" {
